@@ -16,7 +16,10 @@ class Obs:
         self.notes = []
 
     def add(self, props, rule, instance, ok, construct="", derived="", expected="", where=""):
-        self.items.append(dict(props=set(props), rule=rule, instance=instance, ok=bool(ok), construct=construct or instance,
+        props = set(props)
+        if rule in ("TRACE-SCORE", "SCORE-AGG", "SCORE-GATE"):
+            props |= {"C01", "C02"}  # a stored score that is not the density of the stored choices breaks both
+        self.items.append(dict(props=props, rule=rule, instance=instance, ok=bool(ok), construct=construct or instance,
                                derived=derived if isinstance(derived, str) else show(derived), expected=expected, where=where))
         return bool(ok)
 
